@@ -1,5 +1,5 @@
 (** Pins for C07: the statements written out, so that no theorem is weakened quietly. *)
-From TucModel Require Import Base.Bytes Base.ListX Model.Scan Model.Utf8 Model.CutStr Proofs.ScanSplit Proofs.C07 Properties.C07.
+From TucModel Require Import Base.Bytes Base.ListX Model.Scan Model.Utf8 Model.CutStr Proofs.ScanSplit Proofs.C07 Proofs.C07More Proofs.C07Utf8 Properties.C07.
 
 
 Check C07_fields_are_the_characters :
@@ -13,3 +13,21 @@ Check C07_characters_tile_the_record :
   forall (fuel : nat) (l : bytes) (cs : list bytes),
     utf8_chars_fuel fuel l = Some cs -> concat cs = l /\ Forall (fun c => c <> []) cs.
 Print Assumptions C07_characters_tile_the_record.
+
+Check C07_a_range_prints_exactly_the_selected_characters :
+  forall (line : bytes) (cs : list bytes) (ms : list mtch) (s e a z : nat),
+    utf8_chars line = Some cs -> char_matches line = Some ms ->
+    s < e -> e <= length cs ->
+    range_start (drop_outer (fields_of_matches ms line)) s = Some a ->
+    range_end (drop_outer (fields_of_matches ms line)) (e - 1) = Some z ->
+    slice line a z = concat (slice cs s e).
+Print Assumptions C07_a_range_prints_exactly_the_selected_characters.
+
+Check C07_characters_are_whole_scalars :
+  forall (fuel : nat) (l : bytes) (cs : list bytes), utf8_chars_fuel fuel l = Some cs -> Forall scalar cs.
+Print Assumptions C07_characters_are_whole_scalars.
+
+Check C07_selected_characters_are_valid_utf8 :
+  forall (line : bytes) (cs : list bytes) (s e : nat),
+    utf8_chars line = Some cs -> utf8_valid (concat (slice cs s e)) = true.
+Print Assumptions C07_selected_characters_are_valid_utf8.
